@@ -39,6 +39,7 @@ fn mac_digit(acc: &mut [BigDigit], b: &[BigDigit], c: BigDigit) {
     if c == 0 {
         return;
     }
+    verif_probe!(work b.len());
 
     let mut carry = 0;
     let (a_lo, a_hi) = acc.split_at_mut(b.len());
@@ -68,6 +69,7 @@ fn mac3(mut acc: &mut [BigDigit], mut b: &[BigDigit], mut c: &[BigDigit]) {
     // Least-significant zeros have no effect on the output.
     if let Some(&0) = b.first() {
         if let Some(nz) = b.iter().position(|&d| d != 0) {
+            verif_probe!(MulStripZeros);
             b = &b[nz..];
             acc = &mut acc[nz..];
         } else {
@@ -76,6 +78,7 @@ fn mac3(mut acc: &mut [BigDigit], mut b: &[BigDigit], mut c: &[BigDigit]) {
     }
     if let Some(&0) = c.first() {
         if let Some(nz) = c.iter().position(|&d| d != 0) {
+            verif_probe!(MulStripZeros);
             c = &c[nz..];
             acc = &mut acc[nz..];
         } else {
@@ -100,6 +103,7 @@ fn mac3(mut acc: &mut [BigDigit], mut b: &[BigDigit], mut c: &[BigDigit]) {
 
     if x.len() <= 32 {
         // Long multiplication:
+        verif_probe!(MulLong);
         for (i, xi) in x.iter().enumerate() {
             mac_digit(&mut acc[i..], y, *xi);
         }
@@ -156,6 +160,7 @@ fn mac3(mut acc: &mut [BigDigit], mut b: &[BigDigit], mut c: &[BigDigit]) {
         //            = ((z1 - z0) * NBASE ^ m2) + z0
         //            = ((z1 - z0) * NBASE ^ m2) + z0
         //            = (x * high2) * NBASE ^ m2 + z0
+        verif_probe!(MulHalfKaratsuba);
         let m2 = y.len() / 2;
         let (low2, high2) = y.split_at(m2);
 
@@ -226,6 +231,7 @@ fn mac3(mut acc: &mut [BigDigit], mut b: &[BigDigit], mut c: &[BigDigit]) {
 
         // When x is smaller than y, it's significantly faster to pick b such that x is split in
         // half, not y:
+        verif_probe!(MulKaratsuba);
         let b = x.len() / 2;
         let (x0, x1) = x.split_at(b);
         let (y0, y1) = y.split_at(b);
@@ -262,6 +268,7 @@ fn mac3(mut acc: &mut [BigDigit], mut b: &[BigDigit], mut c: &[BigDigit]) {
 
         match j0_sign * j1_sign {
             Plus => {
+                verif_probe!(KaraPlus);
                 p.data.truncate(0);
                 p.data.resize(len, 0);
 
@@ -271,9 +278,12 @@ fn mac3(mut acc: &mut [BigDigit], mut b: &[BigDigit], mut c: &[BigDigit]) {
                 sub2(&mut acc[b..], &p.data);
             }
             Minus => {
+                verif_probe!(KaraMinus);
                 mac3(&mut acc[b..], &j0.data, &j1.data);
             }
-            NoSign => (),
+            NoSign => {
+                verif_probe!(KaraNoSign);
+            }
         }
     } else {
         // Toom-3 multiplication:
@@ -284,10 +294,14 @@ fn mac3(mut acc: &mut [BigDigit], mut b: &[BigDigit], mut c: &[BigDigit]) {
         // The general idea is to treat the large integers digits as
         // polynomials of a certain degree and determine the coefficients/digits
         // of the product of the two via interpolation of the polynomial product.
+        verif_probe!(MulToom3);
         let i = y.len() / 3 + 1;
 
         let x0_len = Ord::min(x.len(), i);
         let x1_len = Ord::min(x.len() - x0_len, i);
+        if x0_len + x1_len == x.len() {
+            verif_probe!(Toom3X2Empty);
+        }
 
         let y0_len = i;
         let y1_len = Ord::min(y.len() - y0_len, i);
@@ -421,6 +435,7 @@ fn scalar_mul(a: &mut BigUint, b: BigDigit) {
         1 => {}
         _ => {
             if b.is_power_of_two() {
+                verif_probe!(ScalarMulPow2);
                 *a <<= b.trailing_zeros();
             } else {
                 let mut carry = 0;
